@@ -108,6 +108,7 @@ def make(client, history, upgrade, with_stream):
         p = sym_int('conn_P', 0, 65535, default=30000)
         A.set_wm(A.conn_wm(me), cur, 65535, p)
         out = models.Out(me)
+        pre_marks = (me.highest_outbound_stream_id, me.highest_inbound_stream_id)
         exc = None
         try:
             do_call(me, name, sid)
@@ -122,6 +123,13 @@ def make(client, history, upgrade, with_stream):
             type(exc).__name__, name), None)
         if name != 'data_to_send':
             check(out.nbytes() == 0, 'raising-call-emits:' + name, None)
+        # a call that raises has used no stream id: the marks that decide between
+        # StreamClosedError and NoSuchStreamError for LATER calls have not moved
+        own_mark, peer_mark = me.highest_outbound_stream_id, me.highest_inbound_stream_id
+        check(peer_mark == pre_marks[1], 'raising-call-moves-peer-stream-id-mark:' + name,
+              (pre_marks[1], peer_mark))
+        check(own_mark == pre_marks[0], 'raising-call-moves-own-stream-id-mark:' + name,
+              (pre_marks[0], own_mark))
         if with_stream and name not in ('prioritize', 'send_headers') and \
                 pre.conn_closed is None and isinstance(exc, h2.exceptions.NoSuchStreamError):
             # which of the two "unknown stream" errors?  decided by the high-water mark
